@@ -39,25 +39,48 @@ def decode(out):
 # ------------------------------------------------------------------------------------------------
 # generators
 
+LAST_SCALE = ["unit"]
+
+
 def gen_values(rng, count):
-    """`count` strictly increasing breakpoints"""
+    """`count` strictly increasing breakpoints; about a quarter on timestamp / tiny / huge scales"""
+    LAST_SCALE[0] = "unit"
     style = rng.random()
-    if style < 0.35:
+    if style < 0.3:
         start = rng.randint(-3, 5)
         vals = [float(start + i) for i in range(count)]
-    elif style < 0.6:
+    elif style < 0.5:
         start = rng.randint(-3, 5)
         vals = [float(start)]
         for _ in range(count - 1):
             vals.append(vals[-1] + rng.choice([0.25, 0.5, 1.0, 1.5, 2.0, 3.0]))
-    elif style < 0.9:
+    elif style < 0.7:
         vals = [rng.uniform(-10, 10)]
         for _ in range(count - 1):
             vals.append(vals[-1] + rng.uniform(0.01, 5.0))
-    else:  # large offsets / tiny spans
+    elif style < 0.75:  # large offsets / mixed spans
         vals = [rng.choice([1e6, -1e6, 45000.0, 1e-3])]
         for _ in range(count - 1):
             vals.append(vals[-1] + rng.choice([1e-3, 1.0, 365.0, 1e3]))
+        LAST_SCALE[0] = "mixed"
+    elif style < 0.87:  # POSIX timestamps in seconds, nodes months to years apart
+        vals = [float(rng.randint(1000000000, 1900000000))]
+        for _ in range(count - 1):
+            vals.append(vals[-1] + rng.choice([86400.0 * 30, 86400.0 * 365, 86400.0 * 365 * 5,
+                                               float(int(10 ** rng.uniform(6, 9)))]))
+        LAST_SCALE[0] = "timestamp"
+    elif style < 0.93:  # tiny spacing
+        h = 10 ** rng.uniform(-6, -3)
+        vals = [rng.choice([0.0, rng.uniform(-1, 1)])]
+        for _ in range(count - 1):
+            vals.append(vals[-1] + h * rng.uniform(0.5, 2.0))
+        LAST_SCALE[0] = "tiny"
+    else:  # huge spacing
+        h = 10 ** rng.uniform(9, 12)
+        vals = [rng.choice([0.0, 1e12, -3e11])]
+        for _ in range(count - 1):
+            vals.append(vals[-1] + h * rng.uniform(0.5, 2.0))
+        LAST_SCALE[0] = "huge"
     return vals
 
 
@@ -149,6 +172,7 @@ def gen_cases(ctx):
         cases.append(("grid", k, imax, mmax, len(t)) + tuple(f2b(v) for v in t) + (len(xs),) + tuple(f2b(x) for x in xs))
         meta.append({"kind": kind, "k": k, "t": t, "xs": xs, "imax": imax, "mmax": mmax})
         ctx.count("knots:" + kind)
+        ctx.count("scale:" + LAST_SCALE[0])
         ctx.count("order:%d" % k)
         ctx.count("nknots:%d" % len(t))
     # single calls with an explicit org_k (exposed to Python), k = 0, indices out of range
@@ -230,6 +254,7 @@ def compare_case(ctx, ci, c, meta, a, b, stats):
 def run(ctx):
     ctx.rule = ("orders 1-6 (plus k = 0 in single calls); knot vectors with k-fold end knots and 0-5 interior "
                 "breakpoints of multiplicity 1..k-1 (4-14 knots where the order allows), plus interior multiplicity k, "
+                "knot values on unit, POSIX-timestamp (offset ~1e9, spacing 1e6..1e9), tiny (1e-6..1e-3) and huge (up to 1e12) scales; "
                 "simple left knots and malformed vectors (short/long end knot, decreasing, truncated, NaN, inf); "
                 "every basis index 0..n+1 (two beyond the last function: abort class), m = 0..k+1; x at every knot, "
                 "both end points, midpoints, one-ulp neighbours of knots, random interior points, points outside the "
